@@ -227,7 +227,15 @@ func (m *Dev) abs(ev Event, got []Msg, signals int) *Violation {
 		if pa := m.physAxis(ev.Code); pa != nil && pa.Min == 0 {
 			rest = (pa.Max + 1) / 2
 		}
-		if ev.Value == rest {
+		side := 0
+		if ev.Value > rest {
+			side = 1
+		} else if ev.Value < rest {
+			side = -1
+		}
+		if side != st.actSide {
+			// ... and so is a deflection that comes back after the axis has been at rest or on the other side
+			// meanwhile (a hat can jump from one direction to the other)
 			m.probe("action_axis_released_in_other_mapping")
 			st.actDir = 0
 		}
@@ -260,7 +268,20 @@ func (m *Dev) abs(ev Event, got []Msg, signals int) *Violation {
 		// generators do not produce such positions)
 		m.probe("deadzone_edge_unasserted")
 		st.last = s
+		st.seen, st.lastRaw, st.lastMap, st.lastCh, st.lastEpoch = true, ev.Value, m.Map, m.Ch, m.destEpoch
+		st.edge = true
 		return nil
+	}
+	if st.edge {
+		st.edge = false
+		if len(got) == 0 && (s.Sign() == 0 || s.Cmp(st.last) == 0) {
+			// a repetition of what the implementation may have made of the boundary position
+			m.probe("after_deadzone_edge_unasserted")
+			st.last = s
+			st.seen, st.lastRaw, st.lastMap, st.lastCh, st.lastEpoch = true, ev.Value, m.Map, m.Ch, m.destEpoch
+			return nil
+		}
+		st.seen = false // otherwise judged as a fresh position: nothing is known about what was sent before
 	}
 	if m.Learning && (a.Type == "cc" || a.Type == "pitch_bend") {
 		if f := Flipped(a, s, canNeg); !(f.Cmp(new(big.Rat).Neg(rHalf)) < 0 || f.Cmp(rHalf) > 0) {
@@ -601,6 +622,18 @@ func (m *Dev) actionAxis(ev Event, a *AxisDesc, st *axisState, f *big.Rat, canNe
 	}
 	old := st.actDir
 	st.actDir = newDir
+	st.actSide = 0
+	if newDir != 0 {
+		rest := int32(0)
+		if pa := m.physAxis(ev.Code); pa != nil && pa.Min == 0 {
+			rest = (pa.Max + 1) / 2
+		}
+		if ev.Value > rest {
+			st.actSide = 1
+		} else if ev.Value < rest {
+			st.actSide = -1
+		}
+	}
 	act := func(dir int) string {
 		if dir > 0 && a.Action != nil {
 			return *a.Action
